@@ -112,6 +112,10 @@ def work_store(ctx, item):
         fmts = rng.sample(fmts, 10) + ['psi4', 'gaussian94lib', 'json']
     for fmt in fmts:
         # the real header, through get_basis(header=True/False)
+        others = [v for v in store.metadata()[name]['versions'] if v != version]
+        if others and fmt in fmts[:3]:
+            # history: another version of this basis was headed before in this process
+            impl.call(bse.get_basis, name, version=others[0], fmt=fmt, header=True)
         h = impl.call(bse.get_basis, name, elements=els, version=version, fmt=fmt, header=True)
         n = impl.call(bse.get_basis, name, elements=els, version=version, fmt=fmt, header=False)
         ctx.case((label, fmt, 'get_basis'), True, 'get_basis-header:' + fmt)
@@ -131,6 +135,11 @@ def work_store(ctx, item):
                 # requested under a name that is not the first of its family's list of names
                 ctx.violation('api._header_string', 'states-name', 'the header does not state the name %r of the basis it heads' % b['name'],
                               {'kind': 'get_basis', 'name': name, 'fmt': fmt})
+            if formats()[fmt]['comment'] is not None and b.get('revision_description') and \
+                    ' '.join(b['revision_description'].split())[:30] not in ' '.join(h[1][:len(h[1]) - len(n[1])].replace(formats()[fmt]['comment'], ' ').split()):
+                # the header of version v carries v's own revision text (also when another version was headed before in this process)
+                ctx.violation('api._header_string', 'states-revision', 'the header of version %s does not carry its revision description %r'
+                              % (b['version'], b['revision_description'][:40]), {'kind': 'get_basis', 'name': name, 'fmt': fmt})
             for needle in (b['name'], b['role'], b['version'], api.version()):
                 if formats()[fmt]['comment'] is not None and needle not in h[1][:len(h[1]) - len(n[1]) + 80]:
                     ctx.violation('api._header_string', 'states', 'the header does not state %r' % needle, {'kind': 'get_basis', 'name': name, 'fmt': fmt})
@@ -213,6 +222,11 @@ def run(ctx):
         pairs = [(n, md[n]['latest_version']) for n in store.sample_names(ctx.rng, 30, md)]
         # names that are not the first entry of their family's list of names (ten in the store)
         pairs += [(n, md[n]['latest_version']) for n in ('6-31g(d,p)', 'midix') if n in md]
+        # a description with curly braces ("10^{-5}"), and both versions of a basis in one process (the header states each one's own)
+        pairs += [(n, md[n]['latest_version']) for n in ('ahgbs-5', 'hgbs-5') if n in md]
+        multi = sorted(k for k, v in md.items() if len(v['versions']) > 1)
+        for k in ctx.rng.sample(multi, min(3, len(multi))):
+            pairs += [(k, v) for v in sorted(md[k]['versions'])]
     store.parallel(ctx, work_store, pairs)
     store.parallel(ctx, work_generated, [ctx.seed * 53 + i for i in range(ctx.budget(60, 3000))])
 
